@@ -45,8 +45,23 @@ type inst struct {
 	emptied, used bool
 }
 
-func asc(a, b int) int { return a - b }
-func dsc(a, b int) int { return b - a }
+// The two orders are method values of ONE method bound to different receivers:
+// different function values that share a code pointer (an implementation that
+// compares function identity by code pointer must not take them for the same).
+type order struct{ desc bool }
+
+func (o order) compare(a, b int) int {
+	if o.desc {
+		return b - a
+	}
+	return a - b
+}
+
+var (
+	asc = order{false}.compare
+	dsc = order{true}.compare
+)
+
 func (s *inst) cmp() func(a, b int) int {
 	if s.desc {
 		return dsc
@@ -205,7 +220,14 @@ func (s *inst) Apply(o op, check bool) *mc.Failure {
 			s.held[v] = true
 			s.tracked[v] = true
 		}
-		s.q.Set(append([]int(nil), o.Vs...))
+		arg := make([]int, len(o.Vs), len(o.Vs)+3) // spare capacity behind the argument
+		copy(arg, o.Vs)
+		s.q.Set(arg)
+		// the caller goes on using its slice: overwrite it and append to it
+		for i := range arg {
+			arg[i] = -5
+		}
+		_ = append(arg, -6, -7)
 		if check {
 			atomic.AddInt64(&s.cnt.setReports, s.ncb-cb0)
 		}
